@@ -52,6 +52,7 @@ pub fn rand_placed_lib(rng: &mut Rng, max_cells: usize, with_abstracts: bool) ->
     let mut deps: Vec<Vec<usize>> = Vec::new();
     // one library in five names its cells from a family of equally long names that differ in one character only
     let family = if rng.chance(1, 5) { Some(crate::rt::prng::NameFamily::random(rng)) } else { None };
+    let defaulted_ptrs = rng.chance(1, 5);
     for i in 0..n {
         let mut name = match &family {
             Some(f) => f.name(i),
@@ -130,7 +131,14 @@ pub fn rand_placed_lib(rng: &mut Rng, max_cells: usize, with_abstracts: bool) ->
         }
         names.push(name);
         deps.push(d);
-        cells.push(Ptr::new(cell));
+        // how the cell gets its pointer: `Ptr::new(cell)`, or (one library in five) a defaulted pointer filled in afterwards
+        if defaulted_ptrs {
+            let ptr: Ptr<Cell> = Ptr::default();
+            *ptr.write().unwrap() = cell;
+            cells.push(ptr);
+        } else {
+            cells.push(Ptr::new(cell));
+        }
     }
     let mut order: Vec<usize> = (0..n).collect();
     match rng.below(3) {
